@@ -35,7 +35,7 @@ func init() {
 	})
 }
 
-var c06Classes = []string{"hdrsize-oversized", "datasize-negative", "datasize-oversized", "rawsize-wrong", "rawsize-small", "rawsize-zero", "zlib-corrupt", "encoding-lzma",
+var c06Classes = []string{"hdrsize-oversized", "datasize-negative", "datasize-oversized", "rawsize-wrong", "rawsize-small", "rawsize-zero", "rawsize-huge", "zlib-corrupt", "encoding-lzma",
 	"encoding-none", "type-unknown", "feature-unsupported", "dense-no-ids", "dense-no-lat", "dense-no-lon", "string-oob-dense", "string-oob-way",
 	"string-oob-rel", "column-short", "way-lat-longer", "rel-types-short", "plain-nodes", "tagkey-oob-dense"}
 
@@ -130,6 +130,10 @@ func c06Damaged(pf *PFile, class string, pos int) ([]byte, bool) {
 			return nil, false
 		}
 		reframe(frameOpt{rawSizeDelta: -len(p)}, true)
+	case "rawsize-huge":
+		// a declared uncompressed size near the top of int32 (the format's limit is 32 MiB)
+		p, _, _ := payload()
+		reframe(frameOpt{rawSizeDelta: 2000000000 + pos - len(p)}, true)
 	case "zlib-corrupt":
 		reframe(frameOpt{corruptZlib: true}, true)
 	case "encoding-lzma":
